@@ -221,33 +221,57 @@ theorem C04_drain_contiguous (s : Sess) (stash : List (Int × InMsg)) (fin : Int
 
 /-- **C04 (Logon gap)**: in the `logon` state, whenever the Logon handler reports a gap (`n` above the expected `t`) the
     ResendRequest `[t, infinity]` (or the first chunk) is issued — queued behind the Logon reply, the session not yet
-    counting as logged on — and recovery starts with an empty stash and gap end `n-1`; `t` is the expected number. -/
-theorem C04_logon_gap (s s' : Sess) (m : InMsg) (n t : Int) (hk : kindOf m = "A")
+    counting as logged on — and recovery starts with an empty stash and gap end `n-1`; `t` is the expected number.
+    `hq` (new with EnableNextExpectedMsgSeqNum): the option is off, or message persistence is on.  With the option on and
+    persistence off the statement is FALSE of the code: `handleLogon` reports the peer's tag 789 through the same error
+    (`targetTooHigh{789, our next OUTBOUND number}`), and the logon state requests from our outbound number — counterexample
+    `#guard` below (`c04NxGap`). -/
+theorem C04_logon_gap (s s' : Sess) (m : InMsg) (n t : Int) (hk : kindOf m = "A") (hq : NxNoErr s.cfg)
     (h : handleLogon s m = (s', some (.rej (.tooHigh n t)))) :
     t = s'.store.target ∧ getInt m 34 = .val n ∧ n > t ∧
     logonFixMsgIn s m =
       (sendInReplyTo s' (mkOut "2" [(7, toString t), (16, toString (chunkEnd s'.cfg t (n - 1)))]),
        .resend [] (chunkCur s'.cfg t (n - 1)) (n - 1)) := by
-  obtain ⟨ht, hn, hgt⟩ := handleLogon_high s s' m n t h
+  obtain ⟨ht, hn, hgt⟩ := handleLogon_high s s' m n t hq h
   refine ⟨ht, hn, hgt, ?_⟩
-  rw [logonFixMsgIn_high s s' m n t hk h, ← ht]; rfl
+  rw [logonFixMsgIn_high s s' m n t hk hq h, ← ht]; rfl
 
 /-- and the Logon handler does report the gap for every Logon the application accepts that passes the gates, asks for
-    no reset and carries a number above the expected one (the expected number is still the one before the Logon) -/
+    no reset and carries a number above the expected one (the expected number is still the one before the Logon).
+    `hnx`, `hq` (new with EnableNextExpectedMsgSeqNum): the Logon is not refused because its tag 789 is ahead of our next
+    outbound number — without the option, or without a readable 789, that is always so (`nxRefuses_off`, `nxRefuses_absent`) —
+    and the option is off or message persistence on (see `C04_logon_gap`). -/
 theorem C04_logon_gap_detected (s : Sess) (m : InMsg) (n : Int) (hst : s.st = .logon) (hk : kindOf m = "A")
     (hfixt : (s.cfg.bs == 5 && !(m.f.has 1137)) = false)
     (hv : validate s.cfg m = none) (hcb : callbackVerdict m = none)
     (hr1 : (if s.cfg.initiator then false else s.cfg.resetOnLogon) = false) (hr2 : logonResetFlag m = false)
     (hb : checkBeginString s m = none) (hc : checkCompID s m = none) (ht : checkSendingTime s m = none)
-    (hn : getInt m 34 = .val n) (hgt : n > s.store.target) :
+    (hn : getInt m 34 = .val n) (hgt : n > s.store.target)
+    (hnx : nxRefuses s m = false) (hq : NxNoErr s.cfg) :
     ∃ s', Kept s s' ∧
       fixMsgInCore s m =
         (sendInReplyTo s' (mkOut "2" [(7, toString s.store.target), (16, toString (chunkEnd s.cfg s.store.target (n - 1)))]),
          .resend [] (chunkCur s.cfg s.store.target (n - 1)) (n - 1)) := by
-  obtain ⟨s', hl, hkept⟩ := handleLogon_gap s m n hfixt hv hcb hr1 hr2 hb hc (Or.inr ht) hn hgt
+  obtain ⟨s', hl, hkept⟩ := handleLogon_gap s m n hfixt hv hcb hr1 hr2 hb hc (Or.inr ht) hn hgt hnx hq
   refine ⟨s', hkept, ?_⟩
   have : fixMsgInCore s m = logonFixMsgIn s m := by simp [fixMsgInCore, hst]
-  rw [this, logonFixMsgIn_high s s' m n _ hk hl, hkept.target, hkept.cfg]; rfl
+  rw [this, logonFixMsgIn_high s s' m n _ hk hq hl, hkept.target, hkept.cfg]; rfl
+
+/-! ### `C04_logon_gap` without `hq` is false of the code (EnableNextExpectedMsgSeqNum on, message persistence off)
+
+An acceptor expecting 3 whose next outbound number is 5 receives a Logon numbered 9 (a gap [3, 8] detected on the Logon itself)
+whose tag 789 says 4.  `handleLogon` replies, notifies, and then reports the 789 through the error the gap check would use:
+`targetTooHigh{4, 5}`.  The logon state queues ONE ResendRequest — BeginSeqNo 5 (our next OUTBOUND number), recovery range end
+3 (the peer's 789 − 1) — instead of BeginSeqNo 3 with range end 8; the expected number stays 3.  With the option off the same
+Logon gets the request the property describes.  (The `sess` correspondence agrees with the real code on this; the C04
+monitor does not see it: the request is queued, not written, while the session is not logged on.) -/
+def c04NxCfg : Cfg := { nextExpected := true, persist := false }
+def c04NxGap (cfg : Cfg) : List (String × Fields) × Int × Int × Int :=
+  let r := step (step (initSess cfg 5 3) .connect).1 (.incomingMsg (some (demoIn cfg "A" 9 [(98, "0"), (108, "30"), (789, "4")])))
+  (r.1.toSend.map (fun o => (o.kind, o.f)), r.1.store.target, match r.1.st with | .resend _ c f => (c, f) | _ => (-1, -1))
+#guard c04NxGap c04NxCfg == ([("2", [(7, "5"), (16, "0")])], 3, 0, 3)
+#guard c04NxGap { c04NxCfg with nextExpected := false } == ([("2", [(7, "3"), (16, "0")])], 3, 0, 8)
+#guard c04NxGap { c04NxCfg with persist := true } == ([("2", [(7, "3"), (16, "0")])], 3, 0, 8)
 
 /-! ### non-vacuity (evaluated by the interpreter at build time; String functions do not reduce in the kernel) -/
 
